@@ -1,6 +1,6 @@
 (* Props/C12.v — property theorems only; proofs in Proofs/C12Nonce.v, Proofs/FrameBase.v. *)
 From Coq Require Import List NArith.
-From Cedar Require Import Lib.Bytes Lib.Sym gen.Consts Model.Frame Model.FrameSpec Proofs.FrameBase Proofs.C12Nonce.
+From Cedar Require Import Lib.Bytes Lib.Sym gen.Consts Model.Frame Model.FrameSpec Proofs.FrameBase Proofs.C12Nonce Proofs.C12Rekey.
 Import ListNotations.
 Local Open Scope N_scope.
 
@@ -82,3 +82,28 @@ Example C12_example :
   let '(_, es, fs) := run_sops s [OSend [x41]; OSecret [x42]; OWrite [x43]; OEnd] in
   es = [0; 0; 0; 0] /\ length (key_nonces fs) = 3%nat.
 Proof. vm_compute. split; reflexivity. Qed.
+
+(* A second key installation on the same stream (SetSymmetricKey again: the counters restart at
+   0) keeps every key/nonce pair distinct from all earlier ones provided the new key differs or
+   the new random base IV differs from the old one beyond its leading counter word ... *)
+Theorem C12_rekey_nonce_unique :
+  forall (ops1 ops2 : list sop) (s : stream) (k1 k2 iv1 iv2 : bytes)
+         (s1 s1' : stream) (es1 : list N) (fs1 : list frame) (s2 s2' : stream) (es2 : list N) (fs2 : list frame),
+    set_key s k1 iv1 = SOk s1 -> run_sops s1 ops1 = (s1', es1, fs1) ->
+    set_key s1' k2 iv2 = SOk s2 -> run_sops s2 ops2 = (s2', es2, fs2) ->
+    k1 <> k2 \/ skipn 4 iv1 <> skipn 4 iv2 ->
+    NoDup (key_nonces (fs1 ++ fs2)).
+Proof. exact rekey_unique. Qed.
+Print Assumptions C12_rekey_nonce_unique.
+
+(* ... and the freshness of the IV is necessary: the same key re-installed with the same base IV
+   repeats frame 0's key/nonce pair.  (This is why SetSymmetricKey must draw a new IV each time;
+   the correspondence run re-installs the key on real Streams and requires a new IV.) *)
+Theorem C12_rekey_same_iv_repeats :
+  forall (s : stream) (k iv : bytes) (s1 : stream) (d1 : bytes) (fl1 : N) (s1' : stream) (f1 : frame)
+         (s2 : stream) (d2 : bytes) (fl2 : N) (s2' : stream) (f2 : frame),
+    set_key s k iv = SOk s1 -> send_frame s1 d1 fl1 = (s1', SOk f1) ->
+    set_key s1' k iv = SOk s2 -> send_frame s2 d2 fl2 = (s2', SOk f2) ->
+    exists kn, key_nonces [f1] = [kn] /\ key_nonces [f2] = [kn].
+Proof. exact rekey_same_iv_repeats. Qed.
+Print Assumptions C12_rekey_same_iv_repeats.
